@@ -59,6 +59,9 @@ pub struct Dev {
     pub corr_agg_empty_null: bool,
     /// IN / NOT IN / ANY / ALL subqueries treat NULL as a plain non-matching value
     pub quant_two_valued: bool,
+    /// a correlated subquery behaves as if it returned no rows (scalar: NULL)
+    /// for an outer row in which a correlated column is NULL
+    pub corr_null_outer: bool,
 }
 
 pub struct Eval<'a> {
@@ -67,10 +70,14 @@ pub struct Eval<'a> {
     /// set when the model's result is one of several legal results (LIMIT
     /// cutting through ties, LIMIT without ORDER BY in a subquery, ...)
     pub ambiguous: bool,
+    /// the documentation is silent about the construct's result (not compared)
+    pub dialect_ambiguous: bool,
     /// deviation switches that actually changed a value during evaluation
     pub dev_fired: BTreeSet<&'static str>,
     pub ops: u64,
     pub max_ops: u64,
+    /// per subquery node: the outer column references (rel, name) it contains
+    outer_refs: std::collections::HashMap<usize, Rc<Vec<(String, String)>>>,
 }
 
 pub struct Env<'a> {
@@ -192,7 +199,7 @@ fn tri_not(v: Value) -> Value {
 
 impl<'a> Eval<'a> {
     pub fn new(db: &'a Db, dev: Dev) -> Self {
-        Eval { db, dev, ambiguous: false, dev_fired: BTreeSet::new(), ops: 0, max_ops: 3_000_000 }
+        Eval { db, dev, ambiguous: false, dialect_ambiguous: false, dev_fired: BTreeSet::new(), ops: 0, max_ops: 3_000_000, outer_refs: Default::default() }
     }
 
     fn tick(&mut self, n: u64) -> R<()> {
@@ -486,20 +493,53 @@ impl<'a> Eval<'a> {
             Expr::Subq { kind, q, .. } => {
                 // in a group context the current input row is not visible
                 let env2 = if grp.is_some() { env.and_then(|f| f.parent) } else { env };
+                // recorded deviation: NULL in a correlated column => "no rows"
+                let mut as_empty = false;
+                let correlated;
+                {
+                    let refs = self.outer_refs_of(q);
+                    correlated = !refs.is_empty();
+                    if self.dev.corr_null_outer {
+                        for (rel, name) in refs.iter() {
+                            if let Some(v) = lookup(env2, rel, name) {
+                                if v.is_null() {
+                                    as_empty = true;
+                                }
+                            }
+                        }
+                    }
+                }
+                if as_empty {
+                    self.dev_fired.insert("corr_null_outer");
+                    return Ok(match kind {
+                        SubqKind::Scalar => Value::Null,
+                        SubqKind::Exists { neg } => Value::Bool(*neg),
+                        SubqKind::In { neg, .. } => Value::Bool(*neg),
+                        SubqKind::Quant { all, .. } => Value::Bool(*all),
+                    });
+                }
+                // recorded deviation: a correlated ungrouped aggregate over an
+                // empty input yields no row at all
+                if self.dev.corr_agg_empty_null && correlated {
+                    if let Some(probe) = count_probe(q) {
+                        let rel = self.query(&probe, env2, ctes)?;
+                        if rel.rows.len() == 1 && matches!(rel.rows[0][0], Value::Int(0)) {
+                            self.dev_fired.insert("corr_agg_empty_null");
+                            return Ok(match kind {
+                                SubqKind::Scalar => Value::Null,
+                                SubqKind::Exists { neg } => Value::Bool(*neg),
+                                SubqKind::In { neg, .. } => Value::Bool(*neg),
+                                SubqKind::Quant { all, .. } => Value::Bool(*all),
+                            });
+                        }
+                    }
+                }
                 match kind {
                     SubqKind::Scalar => {
                         let rel = self.query(q, env2, ctes)?;
                         match rel.rows.len() {
-                            0 => {
-                                Ok(Value::Null)
-                            }
-                            1 => {
-                                let v = rel.rows[0][0].clone();
-                                if self.dev.corr_agg_empty_null && scalar_agg_over_empty(q) {
-                                    // handled inside query evaluation; nothing here
-                                }
-                                Ok(v)
-                            }
+                            0 => Ok(Value::Null),
+                            1 => Ok(rel.rows[0][0].clone()),
                             _ => Err(EvalErr::Runtime("scalar subquery returned more than one row".into())),
                         }
                     }
@@ -521,6 +561,59 @@ impl<'a> Eval<'a> {
                 }
             }
         }
+    }
+
+    fn outer_refs_of(&mut self, q: &Query) -> Rc<Vec<(String, String)>> {
+        let key = q as *const Query as usize;
+        if let Some(r) = self.outer_refs.get(&key) {
+            return r.clone();
+        }
+        let mut defined: Vec<String> = Vec::new();
+        let mut refs: Vec<(String, String)> = Vec::new();
+        {
+            let d = std::cell::RefCell::new(&mut defined);
+            let r = std::cell::RefCell::new(&mut refs);
+            let mut c = q.clone();
+            crate::sql::shrink::visit_query_mut(
+                &mut c,
+                &mut |e| {
+                    if let Expr::Col { rel, name, .. } = e {
+                        r.borrow_mut().push((rel.clone(), name.clone()));
+                    }
+                },
+                &mut |qq| {
+                    fn froms(f: &From, out: &mut Vec<String>) {
+                        match f {
+                            From::Join { left, right, .. } => {
+                                froms(left, out);
+                                froms(right, out);
+                            }
+                            From::Table { alias, .. } | From::Subquery { alias, .. } | From::Values { alias, .. } | From::Series { alias, .. } => out.push(alias.clone()),
+                        }
+                    }
+                    fn sets(s: &SetExpr, out: &mut Vec<String>) {
+                        match s {
+                            SetExpr::Select(sel) => {
+                                if let Some(f) = &sel.from {
+                                    froms(f, out);
+                                }
+                            }
+                            SetExpr::Union { left, right, .. } => {
+                                sets(left, out);
+                                sets(right, out);
+                            }
+                        }
+                    }
+                    sets(&qq.body, &mut d.borrow_mut());
+                },
+            );
+        }
+        refs.retain(|(rel, _)| !defined.contains(rel));
+        refs.sort();
+        refs.dedup();
+        let rc = Rc::new(refs);
+        self.outer_refs.insert(key, rc.clone());
+        rc
     }
 
     fn quantified(&mut self, v: &Value, op: BinOp, all: bool, rel: &Rel) -> Value {
@@ -730,7 +823,43 @@ impl<'a> Eval<'a> {
                     let r: &Rel = match &r_fixed {
                         Some(r) => r,
                         None => {
-                            r_owned = self.from(right, Some(&lenv), ctes)?;
+                            // recorded deviation: a NULL in a column the lateral
+                            // subquery is correlated on => no rows
+                            let mut null_corr = false;
+                            if self.dev.corr_null_outer {
+                                if let From::Subquery { q, .. } = &**right {
+                                    let refs = self.outer_refs_of(q);
+                                    for (rel, name) in refs.iter() {
+                                        if let Some(v) = lookup(Some(&lenv), rel, name) {
+                                            if v.is_null() {
+                                                null_corr = true;
+                                            }
+                                        }
+                                    }
+                                }
+                            }
+                            let mut agg_empty = false;
+                            if !null_corr && self.dev.corr_agg_empty_null {
+                                if let From::Subquery { q, .. } = &**right {
+                                    if !self.outer_refs_of(q).is_empty() {
+                                        if let Some(probe) = count_probe(q) {
+                                            let rel = self.query(&probe, Some(&lenv), ctes)?;
+                                            if rel.rows.len() == 1 && matches!(rel.rows[0][0], Value::Int(0)) {
+                                                agg_empty = true;
+                                            }
+                                        }
+                                    }
+                                }
+                            }
+                            r_owned = if null_corr {
+                                self.dev_fired.insert("corr_null_outer");
+                                Rel { cols: from_cols(right), rows: vec![] }
+                            } else if agg_empty {
+                                self.dev_fired.insert("corr_agg_empty_null");
+                                Rel { cols: from_cols(right), rows: vec![] }
+                            } else {
+                                self.from(right, Some(&lenv), ctes)?
+                            };
                             if rcols.is_none() {
                                 rcols = Some(r_owned.cols.clone());
                             }
@@ -859,7 +988,7 @@ impl<'a> Eval<'a> {
                         // ... for a plain aggregate. For ROLLUP/CUBE the docs are
                         // silent on whether the grand-total row appears for
                         // empty input; not compared.
-                        self.ambiguous = true;
+                        self.dialect_ambiguous = true;
                     }
                 }
                 for (kv, grows) in &groups {
@@ -970,17 +1099,29 @@ impl<'a> Eval<'a> {
 
     pub fn query(&mut self, q: &Query, env: Option<&Env>, ctes: Option<&Ctes>) -> R<Rel> {
         let (_, rows) = self.query_full(q, env, ctes)?;
-        let rows = if self.dev.corr_agg_empty_null && env.is_some() { self.apply_corr_dev(q, rows) } else { rows };
         Ok(Rel { cols: q.out.iter().map(|(n, t)| ColInfo { rel: String::new(), name: n.clone(), ty: *t }).collect(), rows })
     }
 
-    fn apply_corr_dev(&mut self, _q: &Query, rows: Vec<Row>) -> Vec<Row> {
-        rows
-    }
 }
 
-fn scalar_agg_over_empty(_q: &Query) -> bool {
-    false
+/// For a scalar subquery that is a single ungrouped aggregate SELECT: the same
+/// query with `count(*)` as its only item (tells whether the input is empty).
+fn count_probe(q: &Query) -> Option<Query> {
+    if let SetExpr::Select(sel) = &q.body {
+        if sel.group_by == GroupBy::None && !sel.items.is_empty() && sel.items.iter().all(|i| i.expr.contains_agg() || matches!(i.expr, Expr::Lit(..))) && sel.items.iter().any(|i| i.expr.contains_agg()) && q.limit.is_none() && q.offset.is_none() {
+            let mut p = q.clone();
+            if let SetExpr::Select(s2) = &mut p.body {
+                s2.items.truncate(1);
+                s2.items[0].expr = Expr::Agg { f: AggFn::CountStar, arg: None, distinct: false, filter: None };
+                s2.having = None;
+                s2.distinct = false;
+            }
+            p.order_by.clear();
+            p.out = vec![("c0".into(), Ty::Big)];
+            return Some(p);
+        }
+    }
+    None
 }
 
 fn dedup(rows: Vec<Row>) -> Vec<Row> {
